@@ -280,6 +280,31 @@ def decode_generation(g):
     return samples
 
 
+def tapes_from_calls(g):
+    """the same per-haplotype tapes read off the recorded `get_segment` calls instead of the generator's log – used when the
+    log no longer has the shape `decode_generation` knows (another order or kind of draws is no change of behaviour): the
+    population and the two parental haplotypes are those of the calls, a recombination event is every call that ends before
+    the chromosome does, the homolog bits are the homologs the calls after a chromosome end start with"""
+    per_child, complete = split_calls(g)
+    if not complete:
+        return None
+    chroms = g["chroms"]
+    out = []
+    for mine in per_child:
+        if not mine:
+            return None
+        pop, a = mine[0][0], mine[0][1]
+        others = [c[1] for c in mine if c[1] != a]
+        b = others[0] if others else a  # one haplotype only: both homologs are it (founders may draw the same index twice)
+        if any(c[0] != pop for c in mine) or any(c[1] not in (a, b) for c in mine) or any(c[2] not in chroms for c in mine):
+            return None
+        homs = [0 if c[1] == a else 1 for c in mine]
+        events = [[chroms.index(c[2]), c[4], int(round(c[5]))] for c in mine if c[4] != MAX]
+        bits = [homs[0]] + [homs[k + 1] for k, c in enumerate(mine[:-1]) if c[4] == MAX] + [0]
+        out.append(dict(pop=pop, haps=[a, b], bits=bits, events=events))
+    return out
+
+
 def split_calls(g):
     """group the recorded get_segment calls by simulated haplotype using the children's lengths"""
     out = []
